@@ -330,6 +330,10 @@ static ssize_t _GD_WriteFieldCode(DIRFILE *D, FILE *stream, int me,
       permissive, standards, flags);
 
   ptr = _GD_StripCode(D, me, code, strip_flags);
+  if (ptr == NULL) { /* the code lacks this fragment's affixes: error is set */
+    dreturn("%i", -1);
+    return -1;
+  }
 
   len = _GD_StringEscapeise(stream, ptr, 0, permissive, standards);
 
